@@ -141,7 +141,13 @@ def gen(rng, tier):
     else:
         ai(["waitclose", "c0", 600], "ok")
     ai(["recv", "c0"], "eof")
-    ai(["status"], "any")
+    # every message type once more on the finished conversation: STATUS, a fresh CHANNEL_EXEC, RECONFIGURE
+    ai(["status"], "status")
+    ai(["exec_src", "p", "channel.send('alive')", 0], "chan")
+    if rng.random() < 0.5:
+        ai(["reconfigure", "p", True, False], "ok")
+    ai(["recv", "p"], "alive")
+    ai(["waitclose", "p", 600], "ok")
     return {"mode": "equiv", "backend": backend, "I": I, "W": W, "EI": EI, "EW": EW,
             "knob_seed": rng.randrange(1 << 30), "nsteps": len(I) + len(W), "errtext_limit": 4000}
 
@@ -174,7 +180,7 @@ def build(case, transport, rng):
         strategy = L.gen_strategy(rng)
     I = [list(o) for o in case["I"]]
     for o in I:
-        if o[0] in ("exec",):
+        if o[0] in ("exec", "exec_src"):
             o[3] = gwi
     actors = [{"side": "i", "gw": gwi, "chan": None, "ops": [["exec", "c0", 1, gwi]] + I + [["terminate", 10.0]]},
               {"side": "w", "gw": gwi, "chan": "c0", "ops": [list(o) for o in case["W"]]}]
@@ -189,10 +195,12 @@ def transcript(case, res, hist):
     for aid in (0, 1):
         ops = case["actors"][aid]["ops"]
         for oi, op in enumerate(ops):
-            if op[0] in ("terminate", "status"):
+            if op[0] in ("terminate",):
                 continue
             r = hist.ret.get((aid, oi))
             rr = r[1] if r else ("<no result>",)
+            if rr and rr[0] == "status":
+                rr = ("status", "ok")  # the counters themselves are timing dependent
             if rr and rr[0] == "exc" and rr[1] == "RemoteError":
                 rr = ("exc", "RemoteError", rr[2].strip().splitlines()[-1] if rr[2].strip() else "")
             ent = [aid, oi, op[0], rr]
